@@ -5,7 +5,9 @@
   R3 the drain loop consumes one token, performs one get on the edge that issued it and one add_item of that
      item into the pallet, removes that token and its index entry, and exits only when the token list is empty;
   R4 the splitter pops until pallet.items is empty, disposes of each popped item, and pushes the pallet itself
-     after the loop, exactly once; it emits nothing else.
+     after the loop, exactly once; it emits nothing else;
+  R5 the pallet's own container operations are total: `Pallet.add_item(x)` stores x on every path that returns (an item the combiner took is
+     never silently left out), `Pallet.remove_item()` hands out exactly the element it removes whenever the pallet is not empty.
 """
 from __future__ import annotations
 
@@ -35,7 +37,69 @@ def run(p: Project, tier: str) -> Result:
             raise AnalysisError(f'anchor vanished: {n}')
     check_combiner(ws['Combiner'], r)
     check_splitter(ws['Splitter'], r)
+    check_pallet(p, r)
     return r
+
+
+def check_pallet(p, r):
+    r.rule('C16.R5', 'Pallet.add_item stores its argument on every returning path; Pallet.remove_item returns exactly the element it removes', 1)
+    try:
+        ci = p.cls('helper/pallet.py', 'Pallet')
+    except Exception:
+        raise AnalysisError('anchor vanished: helper/pallet.py::Pallet')
+    add = ci.methods.get('add_item') or next((f for c in p.mro(ci.key) for n_, f in c.methods.items() if n_ == 'add_item'), None)
+    if add is None:
+        raise AnalysisError('anchor vanished: Pallet.add_item')
+    ex = paths.Explorer(p, ci.key, tracked={'items'})
+    r.analysed_functions.add(add.key)
+    params = [a.arg for a in add.node.args.args if a.arg != 'self']
+    ps = ex.paths(add)
+    r.paths += len(ps)
+    key = f'{add.key}::stores-argument'
+    bad = None
+    for pa in ps:
+        if pa.raises:
+            continue
+        ops = [e for e in pa.events if e.kind == 'op' and e.list == 'items']
+        stores = [e for e in ops if e.op in ('append', 'insert') and params and e.val == ('param', params[0])]
+        already = params and any(e.kind == 'cond' and e.polarity is True and e.text.replace(' ', '') == f'{params[0]}inself.items' for e in pa.events)
+        if not ops and already:
+            continue                    # the very object is already in this pallet: nothing to store
+        if len(stores) != 1 or len(ops) != 1:
+            conds = [('' if e.polarity else 'not ') + f'({e.text})' for e in pa.events if e.kind == 'cond' and not e.d.get('synthetic')]
+            bad = bad or (pa, (f'a path of add_item returns without storing its argument in self.items' + (f' (when {" and ".join(conds)})' if conds else '')
+                               if not stores else f'add_item performs {len(ops)} operations on self.items for one item')
+                          + ': a pallet can leave the combiner with fewer (or other) items than the combiner took for it')
+    if not any(not pa.raises for pa in ps):
+        bad = (ps[0] if ps else None, 'add_item has no returning path')
+    (r.ok if not bad else r.fail)('C16.R5', key, f'{len(ps)} path(s): the argument is appended to self.items exactly once on every returning path' if not bad else bad[1],
+                                  src(add.module), add.node.lineno, *([bad[0].describe()] if bad and bad[0] is not None else []))
+    rem = ci.methods.get('remove_item')
+    if rem is not None:
+        r.analysed_functions.add(rem.key)
+        ps = ex.paths(rem)
+        r.paths += len(ps)
+        key = f'{rem.key}::returns-removed-element'
+        bad = None
+        for pa in ps:
+            if pa.raises:
+                continue
+            ops = [e for e in pa.events if e.kind == 'op' and e.list == 'items']
+            rets = [e for e in pa.events if e.kind == 'return']
+            rv = rets[-1].value if rets else ('const', None)
+            pops = [e for e in ops if e.op in ('pop', 'remove')]
+            if len(ops) != len(pops) or len(pops) > 1:
+                bad = bad or (pa, f'remove_item performs {len(ops)} operation(s) on self.items (expected at most one removal)')
+            elif pops and pops[0].op == 'pop' and rv != pops[0].result:
+                bad = bad or (pa, 'remove_item removes one element but returns something else: the removed item is lost')
+            elif not pops and rv != ('const', None):
+                bad = bad or (pa, 'remove_item returns an object without removing it from self.items: the item is emitted and stays in the pallet')
+            elif not pops:
+                empty = any(e.kind == 'cond' and not e.d.get('synthetic') and any(a[0] == '==' for a in (e.d.get('atoms') or [])) for e in pa.events)
+                if not empty:
+                    bad = bad or (pa, 'remove_item can return without removing anything although the pallet is not known to be empty')
+        (r.ok if not bad else r.fail)('C16.R5', key, f'{len(ps)} path(s)' if not bad else bad[1], src(rem.module), rem.node.lineno,
+                                      *([bad[0].describe()] if bad else []))
 
 
 def check_combiner(w, r):
